@@ -136,10 +136,11 @@ def build_harness(ctx):
     s = open(toml).read()
     s2 = re.sub(r'path = "[^"]*"', f'path = "{REPO}"', s)
     if s2 != s: open(toml, 'w').write(s2)
-    lock_src = open(os.path.join(REPO, 'Cargo.lock')).read()
     lock_dst = os.path.join(HARNESS, 'Cargo.lock')
-    if not os.path.exists(lock_dst) or open(lock_dst).read().count('name = ') < lock_src.count('name = '):
-        open(lock_dst, 'w').write(lock_src)
+    if os.path.exists(os.path.join(REPO, 'Cargo.lock')):      # pin the harness to the repository's own dependency versions
+        lock_src = open(os.path.join(REPO, 'Cargo.lock')).read()
+        if not os.path.exists(lock_dst) or open(lock_dst).read().count('name = ') < lock_src.count('name = '):
+            open(lock_dst, 'w').write(lock_src)
     r = sh(['cargo', 'build', '--release', '--offline'], cwd=HARNESS, env=ENV)
     log(f"[{ctx.prop}] harness build rc={r.returncode} {time.time() - t0:.1f}s")
     return r.returncode == 0, r.stderr[-4000:]
